@@ -1,6 +1,9 @@
 """harnesses - one module per property family; PLAN maps a property to the harnesses that decide it."""
-from . import k04  # noqa: F401
+from . import k04, k13  # noqa: F401
 
 PLAN = {
+    "C03": ["K03"],
     "C04": ["K04a"],
+    "C06": ["K06"],
+    "C13": ["K13a", "K13b"],
 }
